@@ -33,8 +33,6 @@ Inductive o16 := Same (o : obs) | Each (l : list obs).
 Definition expand (o : o16) : list obs :=
   match o with Same x => map (fun _ => x) limit_pairs | Each l => l end.
 
-Definition wtuple := (bytes * Z * bool)%type.
-
 Inductive case :=
 (* parseRoute under the 16 limit pairs; agree = NewRoute / Handle / Delete gave the same verdict as parseRoute *)
 | CPat (p : bytes) (o : o16) (agree : bool)
@@ -74,20 +72,6 @@ Definition spec_obs_ok (mp mk : nat) (p : bytes) (o : obs) : bool :=
   | Some (n, e), OA n' e' => N.eqb (N.of_nat n) n' && N.eqb (N.of_nat e) e'
   | None, OR _ => true
   | _, _ => false
-  end.
-
-(* the wildcards of a token list with the offset of the byte after each (-1 at the end) *)
-Fixpoint wild_spec (off : nat) (ts : list token) : list wtuple :=
-  match ts with
-  | [] => []
-  | t :: r =>
-    let off' := off + length (render_token t) in
-    let e := if is_nil r then (-1)%Z else Z.of_nat off' in
-    match t with
-    | TStatic _ => wild_spec off' r
-    | TParam n => (n, e, false) :: wild_spec off' r
-    | TCatch n => (n, e, true) :: wild_spec off' r
-    end
   end.
 
 Definition default_limit : nat := N.to_nat 65535.
